@@ -26,6 +26,9 @@ import   "github.com/pbenner/autodiff/algorithm/matrixInverse"
 
 /* -------------------------------------------------------------------------- */
 
+// the iteration is not guaranteed to converge: give up after this many steps
+const maxIterations = 1000
+
 // Denma-Beavers algorithm (not guaranteed to converge!)
 // Other methods rely on the Schur decomposition, see:
 // Higham, N.~J. (2008). Functions of Matrices: Theory and Computation;
@@ -51,7 +54,10 @@ func mSqrt(matrix Matrix) (Matrix, error) {
   Y1.MmulS(Y1.MaddM(Y0, t1), c)
   Z1 := Z0.CloneMatrix()
   Z1.MmulS(Z1.MaddM(Z0, t2), c)
-  for t0.Mnorm(S.MsubM(Y0, Y1)).GetFloat64() > 1e-8 {
+  for iter := 0; t0.Mnorm(S.MsubM(Y0, Y1)).GetFloat64() > 1e-8; iter++ {
+    if iter >= maxIterations {
+      return nil, errors.New("MSqrt(): Denman-Beavers iteration did not converge")
+    }
     Y0, Y1 = Y1, Y0
     Z0, Z1 = Z1, Z0
     t1, err := matrixInverse.Run(Z0)
